@@ -328,6 +328,12 @@ type frag struct {
 	calls   map[string]string // method/function name -> Coq function (pure, returns value)
 	mcalls  map[string]string // N mode: mutating method statements r.m(x) -> Coq function
 	inits   map[string]string // initial values of named results / declared vars
+	// outer (loop-body fragments): statements allowed around the loop (besides the skip list)
+	outer []string
+	// returnCuts (loop-body fragments): a return statement is a cut point
+	returnCuts bool
+	// rangeLoop (loop-body fragments): the single loop is a range statement with this header
+	rangeLoop string
 	// fieldVars: a field written by the fragment (source of the selector
 	// expression -> variable name); it starts at 0 and is read through exprMap
 	fieldVars map[string]string
@@ -629,6 +635,10 @@ func (t *tr) stmt1(s ast.Stmt, list []ast.Stmt, k func() string, rest func() str
 	}
 	switch x := s.(type) {
 	case *ast.ReturnStmt:
+		if t.f.loopBody && t.f.returnCuts {
+			// inside a loop body "return" leaves the loop: not the same as reaching the end of the iteration
+			return "", false
+		}
 		if len(x.Results) == 0 {
 			return t.result(), true
 		}
@@ -878,7 +888,15 @@ func translate(p *pkgInfo, f *frag) string {
 	body := fd.Body.List
 	if f.loopBody {
 		var loop *ast.ForStmt
+		var rloop *ast.RangeStmt
 		for _, s := range fd.Body.List {
+			if rs, ok := s.(*ast.RangeStmt); ok && f.rangeLoop != "" {
+				if rloop != nil {
+					die("%s (%s): more than one top-level range loop", f.coq, f.fn)
+				}
+				rloop = rs
+				continue
+			}
 			if fs, ok := s.(*ast.ForStmt); ok {
 				if loop != nil {
 					die("%s (%s): more than one top-level loop", f.coq, f.fn)
@@ -887,11 +905,37 @@ func translate(p *pkgInfo, f *frag) string {
 				continue
 			}
 			if !t.skipped(s) {
-				die("%s (%s): statement outside the loop is not in the allow-list: %q", f.coq, f.fn, src(s))
+				allowed := false
+				for _, o := range f.outer {
+					if strings.TrimSpace(src(s)) == o {
+						allowed = true
+					}
+				}
+				if !allowed {
+					die("%s (%s): statement outside the loop is not in the allow-list: %q", f.coq, f.fn, src(s))
+				}
 			}
 		}
+		if f.rangeLoop != "" {
+			if rloop == nil || loop != nil {
+				die("%s (%s): expected exactly one top-level range loop", f.coq, f.fn)
+			}
+			part := func(n ast.Node) string {
+				if n == nil || reflect.ValueOf(n).IsNil() {
+					return "_"
+				}
+				return src(n)
+			}
+			have := part(rloop.Key) + ", " + part(rloop.Value) + " " + rloop.Tok.String() + " range " + src(rloop.X)
+			if have != f.rangeLoop {
+				die("%s (%s): expected the loop header %q, found %q", f.coq, f.fn, f.rangeLoop, have)
+			}
+			body = rloop.Body.List
+		}
 		want := f.loopHead
-		if want == "" {
+		if f.rangeLoop != "" {
+			want = "-"
+		} else if want == "" {
 			want = "i := 0; i < len(x); i++"
 		}
 		have := "for"
@@ -904,10 +948,12 @@ func translate(p *pkgInfo, f *frag) string {
 			}
 			have = part(loop.Init) + "; " + part(loop.Cond) + "; " + part(loop.Post)
 		}
-		if loop == nil || have != want {
-			die("%s (%s): expected the loop header %q, found %q", f.coq, f.fn, want, have)
+		if f.rangeLoop == "" {
+			if loop == nil || have != want {
+				die("%s (%s): expected the loop header %q, found %q", f.coq, f.fn, want, have)
+			}
+			body = loop.Body.List
 		}
-		body = loop.Body.List
 	}
 	b.WriteString(t.stmts(body, nil))
 	b.WriteString(".\n")
@@ -1047,6 +1093,21 @@ func main() {
 		{coq: "g_Avail", fn: "Stack.Avail", mode: "Z", ret: "Z",
 			params:  [][2]string{{"init", "bool"}, {"len", "Z"}, {"cap", "Z"}},
 			exprMap: map[string]string{"r.IsInit()": "init", "r.cap()": "cap", "r.len()": "len"}},
+		// one iteration of the key loop of mapsEqual: a key the other map lacks
+		// ends the comparison (cut 0), so does a differing value (cut 1: return
+		// with err set); otherwise the loop goes on
+		{coq: "g_mapsEqual_body", fn: "mapsEqual", mode: "Z", ret: "tres", loopBody: true, returnCuts: true,
+			rangeLoop: "_, key := range xrv.MapKeys()",
+			params:    [][2]string{{"present", "bool"}, {"differs", "bool"}},
+			exprMap:   map[string]string{"yidx.IsValid()": "present", "err != nil": "differs"},
+			inits:     map[string]string{"x": "", "y": "", "err": ""},
+			skip: []string{"xrt, xrv, xrk := derefPtr(assertReflect(x))", "yrt, yrv, yrk := derefPtr(assertReflect(y))",
+				"if xrk != reflect.Map || xrk != yrk {\n\terr = errorf(\"Cannot compare non-map instances\")\n\treturn\n}",
+				"if xrt != yrt {\n\terr = errorf(\"Map type mismatch\")\n\treturn\n}",
+				"if xrv.Len() != yrv.Len() {\n\terr = errorf(\"Map length mismatch\")\n\treturn\n}",
+				"yidx := yrv.MapIndex(key)", "xval := xrv.MapIndex(key).Interface()", "yval := yidx.Interface()",
+				"err = valuesEqual(xval, yval)"},
+			outer: []string{"return"}},
 		// the pointer chase shared by the converters and the comparisons: one
 		// iteration of its loop (cut 0: strip one level and go on; cut 1: stop)
 		{coq: "g_derefPtr_body", fn: "derefPtr", mode: "Z", ret: "tres", loopBody: true, loopHead: "for",
